@@ -14,3 +14,5 @@ CONSTANTS
   StopForgetsParts = FALSE
   DropRemembered = TRUE
   MayStartAgain = FALSE
+  PartsDroppedAtStart <- NoParts
+  SynthPartSkipped = FALSE
